@@ -2,14 +2,15 @@
 import random
 from fractions import Fraction
 from . import core, sketchcheck
-from .sketchgen import Builder, mapspec, STORES, rand_values
+from .sketchgen import Builder, mapspec, STORES, rand_values, spec_list
 from .core import f2h
 
 KINDS = STORES + ["pag", "pag", "low:16", "high:16"]
 def reads(rng, b, k, spec):
     n = rng.randint(1, 6)
     for _ in range(n):
-        r = rng.choice(["q", "qs", "kobs", "ksum", "kforeach0", "kforeach2", "kenc", "kenc1", "ktoproto", "kstream", "kcopy", "arg-merge", "kacc"])
+        r = rng.choice(["q", "qs", "kobs", "ksum", "kforeach0", "kforeach2", "kenc", "kenc1", "ktoproto", "kstream", "kcopy", "arg-merge", "kacc", "arg-chmap"])
+        if r == "arg-chmap" and getattr(b, "huge", False): r = "kobs"          # values next to MaxIndexableValue are outside the conversion's domain (C17): the scaled bounds overflow
         if r == "q": b.emit("q %s %s" % (k, f2h(rng.random())))
         elif r == "qs": b.emit("qs %s %s %s" % (k, f2h(rng.random()), f2h(rng.random())))
         elif r == "kobs": b.emit("kobs " + k)
@@ -22,6 +23,9 @@ def reads(rng, b, k, spec):
         elif r == "kstream": b.emit("kstream y %s" % k, "ok")
         elif r == "kacc": b.emit("kacc " + k)
         elif r == "kcopy": b.kcopy("tmp", k)
+        elif r == "arg-chmap":          # being the argument of a mapping change (unit scale included), then the result is written to and cleared
+            b.emit("kchmap cm %s %s %s %s %s" % (k, spec, rng.choice(["sparse", "pag"]), rng.choice(["sparse", "pag"]), f2h(rng.choice([1.0, 1.0, 2.0, 0.5]))), "ok")
+            b.emit("kadd cm %s" % f2h(3.0), "ok"); b.emit("kadd cm %s %s" % (f2h(-7.5), f2h(2.0)), "ok"); b.emit("kclear cm", "ok")
         elif r == "arg-merge":
             b.knew("recv", spec, rng.choice(STORES), rng.choice(STORES), b.kinds[k][2]); b.kadd("recv", 2.0); b.kmerge("recv", k)
 
@@ -40,7 +44,7 @@ def build(rng, facts, name):
     for v in rand_values(rng, rng.choice([3, 12, 40]), -2, 2): b.kadd("src", v)
     b.emit("kenc sb src 0", "ok")
     if exact and kp in ("sparse", "pag") and kn in ("sparse", "pag") and rng.random() < 0.4:          # a running sum beyond MaxFloat64: GetSum then comes from the uncompensated fallback field
-        mx = facts[spec]["max"]
+        mx = facts[spec]["max"]; b.huge = True
         for v in (0.7 * mx, 0.9 * mx, 42.0, rng.choice([1.0, -0.5 * mx])):
             b.kadd("k", v); b.kadd("t", v)
     for step in range(rng.randint(1, 5)):
@@ -89,7 +93,7 @@ def build(rng, facts, name):
 def run(tier, seed):
     rng = random.Random(seed)
     ok, log = core.build_vrun()
-    specs = [mapspec(rng)[0] for _ in range(10 if tier == "quick" else 40)]
+    specs = spec_list(rng, 10 if tier == "quick" else 40)
     facts = sketchcheck.learn_specs("C14", specs) if ok else {}
     builders = [build(rng, facts, "p%d" % i) for i in range(300 if tier == "quick" else 8000)] if facts else []
     return sketchcheck.run_sketch_property(
